@@ -131,6 +131,10 @@ def gen_content(r, layout, big=False, frac=False):
               (pid, b"LABELS", False, "C", [labw, nlab], labels, b""),
               (pid, b"UNITS", False, "C", [4], [b"mm"], b"")]      # padded one-dimensional string
     if r.random() < 0.8: params.insert(3, (pid, b"DATA_START", True, "I", [], [0], b""))
+    if frac and r2.random() < 0.6:
+        # exactly 8 parameters in the POINT group (a vector filled by push_back is then at capacity) and still no DESCRIPTIONS
+        for nm, val in ((b"X_SCREEN", b"+X"), (b"Y_SCREEN", b"+Z"), (b"MOVIE_ID", b"m0")):
+            if len([p for p in params if p[0] == pid]) < 8: params.append((pid, nm, False, "C", [2], [val], b""))
     analog_empty = (nch == 0 and r.random() < 0.5)
     if not analog_empty:
         nal = r.choice([nch, nch, max(nch - 1, 0), nch + 1]) if nch < 100 else r.choice([3, 3, nch])
